@@ -10,7 +10,7 @@
    send of that number; a re-send of the current highest keeps the first).
    The models follow the code AFTER the three fix: commits of C04. *)
 From IV Require Import Base.Word Model.RtpBuffer Model.PacketFactory Model.ResendLts Spec.C04Spec
-  Proofs.RtpBufferProofs Proofs.PacketFactoryProofs Proofs.ResendLtsProofs.
+  Model.Responder Proofs.RtpBufferProofs Proofs.PacketFactoryProofs Proofs.ResendLtsProofs Proofs.ResponderProofs.
 
 (* ---- (a) the ring: Get returns exactly a packet sent with that number inside
    the window, for every size 1..32768 and every history of Add/Clear ---- *)
@@ -85,6 +85,70 @@ Example C04_rtx_example :
   NPOk (mkRP 258 (mkH false 0 true 97 500 7 2000 []) [1; 2; 9; 8]).
 Proof. vm_compute. reflexivity. Qed.
 Print Assumptions C04_rtx_example.
+
+(* ---- (c) the responder interceptor through its public API (sequential
+   semantics: the resend goroutine of a NACK has finished before the next call).
+   [rfold] runs the model and, beside it, the send history of every
+   BindLocalStream call: the packets stored (C04_history_entries) for the
+   accepted writes through the writer that call returned, since the call or the
+   last UnbindLocalStream/Close. ---- *)
+
+(* For every API history and every NACK: an unbound SSRC produces nothing; a
+   bound one produces, on that stream's writer, for each requested number in
+   request order (NackPair.Range order), the designated packet of the stream's
+   send history if the number is inside the window and was sent - nothing
+   otherwise. *)
+Theorem C04_nack_answer : forall size copy start ops ssrc pairs,
+  valid_size size = true -> Forall op_ok ops -> pairs_ok pairs ->
+  let s := fst (rfold (rinit size copy start) [] ops) in
+  let al := snd (rfold (rinit size copy start) [] ops) in
+  rstep s (ONack ssrc pairs) =
+  (s, (0, match amap_find ssrc (rs_streams s) with
+          | None => []
+          | Some hid =>
+              match nth_error (rs_handles s) hid, nth_error al hid with
+              | Some hd, Some a => nack_answer (rs_size s) (hd_wid hd) a (nack_seqs pairs)
+              | _, _ => []
+              end
+          end)).
+Proof. intros. apply nack_response; auto. apply reachable_RInv; auto. Qed.
+Print Assumptions C04_nack_answer.
+
+(* exactly one retransmission per request that designates a packet, none
+   otherwise: the answer is the concatenation, over the requested numbers, of
+   lists of length <= 1 *)
+Theorem C04_one_per_request : forall size wid a seqs,
+  nack_answer size wid a seqs =
+  concat (map (fun seq => match designated size a seq with
+                          | Some p => [(wid, rp_hdr p, rp_pay p)] | None => [] end) seqs) /\
+  (length (nack_answer size wid a seqs) <= length seqs)%nat.
+Proof. exact nack_answer_one_per_request. Qed.
+Print Assumptions C04_one_per_request.
+
+(* streams that are not bound (never bound, filtered out, unbound, closed) produce nothing *)
+Theorem C04_unbound_nothing : forall s ssrc pairs,
+  amap_find ssrc (rs_streams s) = None -> rstep s (ONack ssrc pairs) = (s, (0, [])).
+Proof. intros s ssrc pairs H. simpl. rewrite H. reflexivity. Qed.
+Print Assumptions C04_unbound_nothing.
+
+(* the entries of the send histories: the packet as sent (copy disabled or RTX
+   not negotiated) or its RFC 4588 form *)
+Theorem C04_history_entries : forall s hd h pay p, stored s hd h pay = NPOk p ->
+  let rtx := rs_copy s && is_rtx (si_rtxssrc (hd_info hd)) (si_rtxpt (hd_info hd)) in
+  rp_seq p = h_seq h /\
+  is_resend_of rtx (si_rtxssrc (hd_info hd)) (si_rtxpt (hd_info hd)) h pay (rp_hdr p) (rp_pay p).
+Proof. exact stored_form. Qed.
+Print Assumptions C04_history_entries.
+
+(* non-vacuity: size 8, RTX stream, 100..102 and the late 93, NACK 101 + bit 0 (102) + bit 2 (104, never sent) *)
+Example C04_nack_example :
+  let i := mkSI 1000 2000 97 true in
+  let w s := OWrite 0%nat (mkH false 0 false 96 s 5 1000 []) [s] in
+  snd (snd (rstep (fst (rfold (rinit 8 true 500) [] [OBind i 0; w 100; w 101; w 102; w 93]))
+                  (ONack 1000 [(101, 5)]))) =
+  [(0, mkH false 0 false 97 501 5 2000 [], [0; 101; 101]); (0, mkH false 0 false 97 502 5 2000 [], [0; 102; 102])].
+Proof. vm_compute. reflexivity. Qed.
+Print Assumptions C04_nack_example.
 
 (* ---- (d) schedules (PARTIAL: the atomic steps are the critical sections of
    the code; that they are atomic is the mutex discipline, trusted).  For every
